@@ -52,6 +52,12 @@ CHECKS = {
         text="Theorems c09_view/defined/minus/plus_or_unstranded/intra; result files x strand mixtures (all +, all -, '.', mixed, shuffled rows) x every constructor (incl. a GeneData in another row order), "
              "each gene column of both TE levels classified against the raw arrays and compared with the model; raw file hashed before/after.",
         design="DESIGN.md 6 C09"),
+    "C10": dict(
+        technique="Coq proof (steps on distinct paths commute; tasks assigning disjoint cells commute under Permutation; sorted-set name axes; totality of the run) + differential execution over schedules",
+        text="Theorems c10_jobs_commute/job_local/tasks_perm/names_perm/names_ext/total; each input through the real library stages with merge jobs in sorted/reversed/shuffled order and several seeds of Python's random, "
+             "and through the CLI with -n 1/2/4/16, --single_process, hash seeds, under CPU load; all runs must complete with identical names, labels and values. "
+             "The OS scheduling of real processes cannot be exhibited by the model: the CLI part is exploration (stated in the evidence).",
+        design="DESIGN.md 6 C10"),
     "C11": dict(
         technique="Coq proof (invariant of a labelled transition system, induction over schedules, any k) + deterministic-scheduler replay on the real class",
         text="Theorems c11_all_collected/never_more/terminates for every number of results and every interleaving; legacy loop refuted (c11_legacy_refuted). "
